@@ -182,7 +182,11 @@ func (cs *State) Delete(entry StateEntry) {
 
 	thisLevel.delSize -= entry.ThisSize
 	found := thisLevel.remove(entry.ThisRange)
-	if entry.ThisLevel != entry.NextLevel && !entry.NextRange.IsEmpty() {
+	// CompareAndAdd reserves both ranges, also for a same-level entry (every ingest compaction
+	// is one): its next range has to be released too, or that part of the level stays reserved
+	// for ever. Only when level and range coincide did the removal above already drop it.
+	sameReservation := entry.ThisLevel == entry.NextLevel && entry.NextRange.Equals(entry.ThisRange)
+	if !sameReservation && !entry.NextRange.IsEmpty() {
 		found = nextLevel.remove(entry.NextRange) && found
 	}
 
